@@ -43,10 +43,22 @@ pub fn frame_of(r: &Rec) -> Vec<u8> {
     match KINDS[r.kind as usize % KINDS.len()] {
         "df17-bds08" => enc::df17(5, a, &enc::me_ident(4, (v % 8) as u8, &chars(v))),
         "df18-bds08" => enc::df18(2, a, &enc::me_ident(2, 1, &chars(v))),
-        "df17-bds05" => enc::df17(5, a, &enc::me_airborne(&enc::AirborneMe { tc: 11, ss: 0, saf: 0, alt12: alt12_q(v), t: 0, f: (v & 1) as u8, lat: (rng.next() & 0x1ffff) as u32, lon: (rng.next() & 0x1ffff) as u32 })),
-        "df18-bds05" => enc::df18(2, a, &enc::me_airborne(&enc::AirborneMe { tc: 12, ss: 0, saf: 0, alt12: alt12_q(v), t: 0, f: (v & 1) as u8, lat: (rng.next() & 0x1ffff) as u32, lon: (rng.next() & 0x1ffff) as u32 })),
+        // airborne positions are real: encoded from a point of the 3 km wide region this aircraft owns (regions are
+        // 20 km apart in both coordinates), so that a position put together from two aircraft's reports lands outside both
+        "df17-bds05" | "df18-bds05" => {
+            let (la, lo) = region_point(r.ac, v);
+            let c = vcore::cprenc::encode(la, lo, (v & 1) as u32, false);
+            let me = enc::me_airborne(&enc::AirborneMe { tc: 11 + (KINDS[r.kind as usize % KINDS.len()] == "df18-bds05") as u8, ss: 0, saf: 0, alt12: alt12_q(v), t: 0, f: (v & 1) as u8, lat: c.yz, lon: c.xz });
+            if KINDS[r.kind as usize % KINDS.len()] == "df17-bds05" {
+                enc::df17(5, a, &me)
+            } else {
+                enc::df18(2, a, &me)
+            }
+        }
         "df17-bds06" | "df18-bds06" => {
-            let me = enc::me_surface(&enc::SurfaceMe { tc: 7, mov: (13 + 4 * i + v % 4) as u8, trk_status: 1, trk: (16 * i + v % 16) as u8, t: 0, f: (v & 1) as u8, lat: (rng.next() & 0x1ffff) as u32, lon: (rng.next() & 0x1ffff) as u32 });
+            let (la, lo) = region_point(r.ac, v);
+            let c = vcore::cprenc::encode(la, lo, (v & 1) as u32, true);
+            let me = enc::me_surface(&enc::SurfaceMe { tc: 7, mov: (13 + 4 * i + v % 4) as u8, trk_status: 1, trk: (16 * i + v % 16) as u8, t: 0, f: (v & 1) as u8, lat: c.yz, lon: c.xz });
             if KINDS[r.kind as usize % KINDS.len()] == "df17-bds06" {
                 enc::df17(4, a, &me)
             } else {
@@ -89,6 +101,20 @@ pub fn frame_of(r: &Rec) -> Vec<u8> {
             }
         }
     }
+}
+
+/// centre of the region aircraft `ac` reports airborne positions from
+pub fn region_centre(ac: u8) -> (f64, f64) {
+    // 20 km apart along a diagonal, all within 32 NM of the receiver reference of the end-to-end scenario (43.6, 1.45)
+    let i = (ac % 6) as f64;
+    (43.3 + 0.15 * i, 1.1 + 0.15 * i)
+}
+
+fn region_point(ac: u8, v: u64) -> (f64, f64) {
+    let c = region_centre(ac);
+    // all within 1.5 km of the centre: two reports of one aircraft a few seconds apart pair up correctly only when
+    // they are less than about 5 km apart (700 kt for 10 s is 3.6 km)
+    (c.0 + (v % 100) as f64 * 0.0002 - 0.01, c.1 + ((v / 100) % 100) as f64 * 0.0002 - 0.01)
 }
 
 fn injected_position(r: &Rec, idx: usize) -> Option<(f64, f64)> {
@@ -296,6 +322,23 @@ pub fn judge_e2e(ctx: &Ctx, sc: &crate::e2e::Scenario, out: &crate::e2e::Outcome
         }
         collect_values(&v, shown.entry(k).or_default());
     }
+    // airborne positions are real (region_point): what the application attaches to an airborne report of an aircraft
+    // must lie in that aircraft's own region (its position decoding keeps per-aircraft state in main())
+    for l in &out.lines {
+        let v: Value = serde_json::from_str(l).map_err(|e| fail("malformed-line", format!("{e}: {l}")))?;
+        if v["bds"] != "05" && v["bds"] != "06" {
+            continue;
+        }
+        if let (Some(la), Some(lo), Some(k)) = (v["latitude"].as_f64(), v["longitude"].as_f64(), v["icao24"].as_str()) {
+            if let Some(ac) = (0..6u8).find(|ac| format!("{:06x}", addr_of(*ac)) == k) {
+                let c = region_centre(ac);
+                let d = vcore::cprenc::haversine_m(c.0, c.1, la, lo);
+                if !(d <= 5_000.0) {
+                    return Err(fail("position-not-from-own-reports", format!("{k}: a position report is printed with ({la}, {lo}), {:.0} km from the region all its reports come from", d / 1000.0)));
+                }
+            }
+        }
+    }
     let table = out.table.as_array().cloned().unwrap_or_default();
     let keys: BTreeSet<String> = table.iter().filter_map(|e| e["icao24"].as_str().map(|s| s.to_string())).filter(|k| *k != marker).collect();
     let want: BTreeSet<String> = sent.keys().cloned().collect();
@@ -354,7 +397,8 @@ pub fn check_e2e(ctx: &Ctx, env: &crate::e2e::Env, hist: &[Rec], tag: &str) -> C
     ctx.eval();
     let sc = e2e_scenario(hist);
     let rep = json!({"kind": "e2e", "scenario": crate::e2e::scenario_json(&sc)});
-    replay_e2e(ctx, env, &sc, &rep, tag)
+    replay_e2e(ctx, env, &sc, &rep, tag)?;
+    Ok(())
 }
 
 fn history() -> impl Strategy<Value = Vec<Rec>> {
@@ -378,7 +422,7 @@ fn history() -> impl Strategy<Value = Vec<Rec>> {
 }
 
 pub fn run(ctx: &Ctx) {
-    ctx.set_rule("histories of 1-119 records from 1-6 aircraft (addresses sharing prefixes and suffixes) over 22 record kinds: DF17 identification / airborne / surface / ground velocity / airspeed / status / target state / operational status, DF18 airborne / surface / identification, DF0, 4, 5, 11, 16, DF20 with BDS 2,0 / 4,0 / the 5,0+6,0 conflict payload, DF21 with BDS 5,0 / 6,0, and DF19/24 records that carry no address; every value comes from a band owned by its aircraft, positions are injected per record; one identification in five carries an unassigned 6-bit character; clocks start at Unix time, at 0 s, within the first second, at 1000 s or beyond 2^32 s; timestamps mostly increasing, sometimes equal or decreasing. Replayed through the real update_snapshot (hook H2) and read back as /all serialises it. Oracle: key set = addresses of the address-carrying records; count, firstseen, lastseen per key from independent bookkeeping; every non-null call sign, squawk, position, altitude, speed, angle, NACp of an entry occurs in the JSON of one of that aircraft's own records; the entry of each aircraft is identical when only its own records are fed. End to end: the distinct frames of such a history are served to the real jet1090 binary as a Beast TCP source and the table is read from its /all endpoint: key set, count per aircraft, seen times inside the run, and every value of an entry occurs in a record jet1090 printed for that aircraft. Non-trivial = >= 2 aircraft and >= 3 record kinds; distinct by hash of the history.");
+    ctx.set_rule("histories of 1-119 records from 1-6 aircraft (addresses sharing prefixes and suffixes) over 22 record kinds: DF17 identification / airborne / surface / ground velocity / airspeed / status / target state / operational status, DF18 airborne / surface / identification, DF0, 4, 5, 11, 16, DF20 with BDS 2,0 / 4,0 / the 5,0+6,0 conflict payload, DF21 with BDS 5,0 / 6,0, and DF19/24 records that carry no address; every value comes from a band owned by its aircraft, positions are injected per record; one identification in five carries an unassigned 6-bit character; clocks start at Unix time, at 0 s, within the first second, at 1000 s or beyond 2^32 s; timestamps mostly increasing, sometimes equal or decreasing. Replayed through the real update_snapshot (hook H2) and read back as /all serialises it. Oracle: key set = addresses of the address-carrying records; count, firstseen, lastseen per key from independent bookkeeping; every non-null call sign, squawk, position, altitude, speed, angle, NACp of an entry occurs in the JSON of one of that aircraft's own records; the entry of each aircraft is identical when only its own records are fed. End to end: the distinct frames of such a history are served to the real jet1090 binary as a Beast TCP source and the table is read from its /all endpoint: key set, count per aircraft, seen times inside the run, and every value of an entry occurs in a record jet1090 printed for that aircraft; airborne positions are encoded from a region owned by the aircraft, and what the application attaches to an airborne report must lie in that region. Non-trivial = >= 2 aircraft and >= 3 record kinds; distinct by hash of the history.");
     ctx.assume("positions are attached by decode_position before update_snapshot in the application; the scenario injects them so that each record carries a unique value");
     ctx.assume("registration and typecode come from the aircraft database / address heuristics, not from records: outside the provenance check");
     let pool = Pool::new(16);
